@@ -256,6 +256,13 @@ func (p *Program) freshNonNil(v ssa.Value, depth int) bool {
 	switch x := v.(type) {
 	case *ssa.Alloc:
 		return true
+	case *ssa.UnOp:
+		// the value of a field that is itself never nil, read outside its constructors (second pass of neverNilFields)
+		if fa, ok := x.X.(*ssa.FieldAddr); ok && x.Op == token.MUL && p.nnFieldVars != nil {
+			if ctors, ok := p.nnFieldVars[fieldOf(fa)]; ok && !ctors[x.Parent()] {
+				return true
+			}
+		}
 	case *ssa.MakeMap, *ssa.MakeChan, *ssa.MakeSlice, *ssa.MakeClosure:
 		return true
 	case *ssa.ChangeType:
@@ -311,6 +318,8 @@ func (p *Program) neverNilFields() map[string]map[*ssa.Function]bool {
 		return p.nnFields
 	}
 	p.nnFields = map[string]map[*ssa.Function]bool{}
+	pass := p.nnPass
+	vars := map[*types.Var]map[*ssa.Function]bool{}
 	p.structFields(func(key string, typ string, f *types.Var, idx int) {
 		switch f.Type().Underlying().(type) {
 		case *types.Pointer, *types.Map, *types.Chan, *types.Slice, *types.Signature, *types.Interface:
@@ -338,9 +347,50 @@ func (p *Program) neverNilFields() map[string]map[*ssa.Function]bool {
 		}
 		if ok {
 			p.nnFields[key] = ctors
+			vars[f] = ctors
 		}
 	})
+	if pass == 0 {
+		// second pass: a field initialised from a never-nil field of another object (h.mw = c.msgWriter) is never nil either
+		p.nnFieldVars = vars
+		first := p.nnFields
+		p.nnFields = nil
+		p.nnPass = 1
+		p.neverNilFields()
+		for k, v := range first {
+			if _, ok := p.nnFields[k]; !ok {
+				p.nnFields[k] = v
+			}
+		}
+	}
 	return p.nnFields
+}
+
+// mapElemNeverNil: every value stored into the map held by the field is a fresh non-nil object (a found element is not nil).
+func (p *Program) mapElemNeverNil(fieldKey string) bool {
+	f := p.FieldOpt(fieldKey)
+	if f == nil {
+		return false
+	}
+	n := 0
+	for _, fn := range p.Funcs {
+		for _, b := range fn.Blocks {
+			for _, in := range b.Instrs {
+				mu, ok := in.(*ssa.MapUpdate)
+				if !ok || !derivesFromField(mu.Map, f) {
+					continue
+				}
+				n++
+				if !p.freshNonNil(mu.Value, 0) {
+					// a conversion of a fresh channel to a directional type is a ChangeType / Convert
+					if cv, ok := mu.Value.(*ssa.Convert); !ok || !p.freshNonNil(cv.X, 0) {
+						return false
+					}
+				}
+			}
+		}
+	}
+	return n > 0
 }
 
 // compositeInits finds composite literals / struct stores initialising field f: in SSA a
